@@ -435,6 +435,13 @@ def run_config(cfg, res):
         feed(pre + b'0' + ops + b'.', [(mod, name)], 'after-undecodable@%d/%s' % (pi, label))
         feed(b'(lp0\n(' + pre + b'(I1\n' + ops + b'tta.', [(mod, name)], 'undecodable-name@%d/%s' % (pi, label))
         feed(b'\x80\x02' + pre + b'0' + ops + b'.', [(mod, name)], 'after-undecodable-proto2@%d/%s' % (pi, label))
+      # a complete, harmless pickle first, the global in what follows it inside the same frame (several batches in one
+      # frame, trailing data after STOP)
+      for pi, first in enumerate((b']' + b'.', b'\x80\x02]q\x00.', pickle.dumps([('ok.metric', (1, 2.0))], protocol=2),
+                                  pickle.dumps([('ok.metric', (1, 2.0))], protocol=0), pickle.dumps([], protocol=4), b'N.')):
+        feed(first + ops + b'.', [(mod, name)], 'after-complete-pickle@%d/%s' % (pi, label))
+        feed(first + wrap(ops, 1, 'value'), [(mod, name)], 'after-complete-pickle-nested@%d/%s' % (pi, label))
+        feed(first + first + b'\x80\x02' + ops + b'.', [(mod, name)], 'after-two-pickles@%d/%s' % (pi, label))
       res.count('route_cases')
   # EXT opcodes
   for code, opc in ((0x11, b'\x82\x11'), (0x1234, b'\x83\x34\x12'), (0x7fff0001, b'\x84\x01\x00\xff\x7f')):
